@@ -52,7 +52,7 @@ impl Property for C39 {
 
     fn runs(&self, tier: Tier) -> u64 {
         match tier {
-            Tier::Quick => 11 * 60,
+            Tier::Quick => 11 * 132,
             Tier::Thorough => 11 * 3000,
         }
     }
